@@ -453,6 +453,8 @@ def cmd_check():
     assert not ms or ms[0]["repo_head"] == head, "mutants.jsonl was generated for another commit: run `gen` again"
     done = {r["id"] for r in load("checked.jsonl")}
     todo = [m for m in ms if m["id"] not in done]
+    if SET:
+        random.Random(20260930).shuffle(todo)  # partial runs are then a fair sample
     print("to check:", len(todo))
     jobs = int(os.environ.get("SA_JOBS", "12"))
     with ProcessPoolExecutor(max_workers=jobs) as ex, open(OUT / _fn("checked.jsonl"), "a") as fh:
